@@ -384,8 +384,26 @@ LABELS_Q = ["default", "English (en)", "English", "en", "Klingon (tlh-x)", "Fren
 LABELS_T = [*LABELS_Q, "(en)", "English (EN)", "Español (es)"]
 
 
+def file_edge_labels():
+    """language labels built from the first and last entries of the two IANA subtag files (and neighbours that are not codes)"""
+    from xmc.engine import REPO
+
+    d = os.path.join(REPO, "pyxform", "validators", "pyxform", "iana_subtags")
+    out = []
+    for fn in ("iana_subtags_2_characters.txt", "iana_subtags_3_or_more_characters.txt"):
+        with open(os.path.join(d, fn), encoding="utf-8") as f:
+            tags = [ln.strip() for ln in f if ln.strip()]
+        for t in (tags[0], tags[1], tags[len(tags) // 2], tags[-2], tags[-1]):
+            out.append(f"L{len(out)} ({t})")
+        out.append(f"L{len(out)} ({tags[-1]}q)")
+    return out
+
+
 def gen_lang(tier):
     labs = LABELS_Q if tier == "quick" else LABELS_T
+    for a in file_edge_labels():
+        yield {"g": "lang", "langs": [a]}
+        yield {"g": "lang", "langs": ["default", a]}
     for a in labs:
         for b in labs:
             yield {"g": "lang", "langs": [a, b]}
